@@ -18,10 +18,14 @@ done
 import json,sys
 src=sys.argv[1]
 a=json.load(open('/verif/known_findings.json')); b=json.load(open(src+'/known_findings.json'))
-ids={(x['property'],x['id']) for x in a['findings']}
+ids={(x['property'],x['id']): x for x in a['findings']}
 for x in b['findings']:
-    if (x['property'],x['id']) not in ids:
+    k=(x['property'],x['id'])
+    if k not in ids:
         a['findings'].append(x)
+    elif ids[k]['status']=='known' and x['status']!='known':
+        print('status of', k, 'changed by builder to', x['status'])
+        ids[k]['status']=x['status']; ids[k]['what']=x.get('what', ids[k].get('what'))
 json.dump(a,open('/verif/known_findings.json','w'),indent=1)
 PY
 python3 tools/mkmanifest.py
